@@ -252,3 +252,66 @@ def loop_updates(ck: Check, qualname: str, which: int = 0) -> Tuple[Optional[Ter
     finally:
         norm.on_call = saved
     return head, ups, fi
+
+
+# --------------------------------------------------------------------------- equality / hashing of value types
+def rule_eq(ck: Check, rule: str, cls_q: str, attrs: Sequence[str], why: str) -> None:
+    """`__eq__` compares exactly the given attributes (plus an isinstance test); a `__hash__`, if defined, depends only on self."""
+    ci = ck.repo.cls(cls_q)
+    eq = ci.methods.get("__eq__")
+    construct = "%s.__eq__ compares %s" % (short(cls_q), list(attrs))
+    if eq is None:
+        ck.violated(rule, construct, "%s — __eq__ is gone: values are compared by identity" % why, ci.module.path)
+        return
+    s = ck.summ(eq.qualname, 0)
+    sp = Spec(s, ("self", "other"))
+    rets = s.returns()
+    # `other` is usually annotated `object`/`Any`; give it the class type so that typed comparisons normalise identically
+    s.norm.var_types.setdefault(sp.term("other"), ("C", cls_q))
+    want = set()
+    for a in attrs:
+        want.add(sp.term("self.%s == other.%s" % (a, a)))
+    alt = {s.norm.mk_cmp_s("==", sp.term("self." + a), sp.term("other." + a), None) for a in attrs}
+    ok = len(rets) == 1
+    got = set()
+    if ok:
+        for cj in conjuncts(rets[0].term):
+            if (cj[0] == "cmp" and cj[1] == "==") or (cj[0] == "cmpz" and cj[1] == "=="):
+                got.add(cj)
+            elif cj[0] == "call" and cj[1] == ("g", "builtin:isinstance"):
+                continue
+            else:
+                ok = False
+    if ok and (got == want or got == alt or (len(got) == len(want) and got <= (want | alt))):
+        ck.ok(rule, construct, why, s.fi.loc)
+    else:
+        ck.violated(rule, construct, "%s — __eq__ returns %s" % (why, "; ".join(show(r.term)[:160] for r in rets)), s.fi.loc)
+    h = ci.methods.get("__hash__")
+    if h is not None:
+        sh = ck.summ(h.qualname, 0)
+        from ..engine.terms import free_vars
+        rs = sh.returns()
+        fv = set()
+        for r in rs:
+            fv |= free_vars(r.term)
+        construct = "%s.__hash__ is a function of the object alone" % short(cls_q)
+        if rs and fv <= {sh.fi.params[0]} and not any(t[0] == "g" and ("random" in t[1] or "time" in t[1] or t[1] == "builtin:id") for r in rs
+                                                      for t in __import__("verif.engine.terms", fromlist=["subterms"]).subterms(r.term)):
+            ck.ok(rule, construct, "", sh.fi.loc)
+        else:
+            ck.violated(rule, construct, "hash depends on %s" % sorted(fv), sh.fi.loc)
+
+
+def rule_ctor_identity(ck: Check, rule: str, cls_q: str, attrs: Sequence[str]) -> None:
+    """the constructor stores each listed parameter under the attribute of the same name, unconditionally"""
+    mi = ck.repo.find_method(cls_q, "__init__")
+    if mi is None:
+        raise AnalysisError("%s has no __init__" % cls_q)
+    s = ck.summ(mi.qualname, 0)
+    for a in attrs:
+        st = [e for e in s.events if e.kind == "store" and e.term == ("a", ("v", mi.params[0]), a)]
+        construct = "%s.__init__: self.%s = %s" % (short(cls_q), a, a)
+        if len(st) == 1 and st[0].value == ("v", a) and not [c for c in st[0].pc if c.prov not in ("raise-surv",)]:
+            ck.ok(rule, construct, "", st[0].loc)
+        else:
+            ck.violated(rule, construct, "the parameter is not stored under its own name (stored: %s)" % [show(e.value)[:60] for e in st], s.fi.loc)
